@@ -263,9 +263,17 @@ class SymbolScenario(explore.Scenario):
             exc = type(e).__name__
             res = traceback.format_exc()[-300:]
         if exc != want_exc:
-            v.append(("C10/exception:%s:expected=%s:got=%s"
-                      % (kind + ("." + op[2] if kind == "yset" else ""),
-                         want_exc, exc), "%s %s" % (op, res)))
+            # membership operations belong to the collection properties;
+            # renames, payload changes and lookups to C10
+            owners = (("C10",) if kind in ("name", "referent", "value",
+                                           "lookups") else
+                      ("C16", "C04") if "_index" not in str(res) else
+                      ("C10", "C16", "C04"))
+            for p_ in owners:
+                v.append(("%s/exception:%s:expected=%s:got=%s"
+                          % (p_, kind + ("." + op[2] if kind == "yset"
+                                         else ""), want_exc, exc),
+                          "%s %s" % (op, res)))
         return v
 
     def apply_ctor(self, w, op):
